@@ -300,7 +300,11 @@ class Isa(object):
         kind = rnd.randrange(4)
         n = rnd.randrange(4, 12)
         b += [bytes(n), b"\xff" * n, b"\x80" * n, bytes(rnd.getrandbits(8) for _ in range(n))][kind]
-        pfx = bytes(X86_WEIGHTED[rnd.randrange(len(X86_WEIGHTED))] if rnd.random() < 0.6 else X86_PREFIXES[rnd.randrange(len(X86_PREFIXES))] for _ in range(rnd.randrange(0, 4) if rnd.random() < 0.6 else 0))
+        if rnd.random() < 0.5:
+            # the prefix sets that change operand / address size and repetition, one each
+            pfx = [b"", b"\x66", b"\x67", b"\x66\x67", b"\xf2", b"\xf3", b"\x66\xf3", b"\xf0", b"\x2e", b"\x66\x66"][rnd.randrange(10)]
+        else:
+            pfx = bytes(X86_WEIGHTED[rnd.randrange(len(X86_WEIGHTED))] if rnd.random() < 0.6 else X86_PREFIXES[rnd.randrange(len(X86_PREFIXES))] for _ in range(rnd.randrange(0, 4) if rnd.random() < 0.6 else 0))
         if self.is_x64 and rnd.random() < 0.6:
             pfx += bytes([REX[rnd.randrange(16)]])
         return pfx + b
